@@ -318,3 +318,218 @@ def check_keys(ts, cfg, doc):
                 elif hit[0]["n"] not in (None, 0):
                     fails.append((None, "empty shape of %s reports %r instances" % (t, hit[0]["n"])))
     return fails, nkeys
+
+
+# --------------------------------------------------------------------------
+# shared views of a canonical document
+# --------------------------------------------------------------------------
+
+def facts_of(doc):
+    """{(label, inv, pred, kind, card): (count, ratio)} over constraint lines and comments"""
+    out = {}
+    for sh in doc["shapes"]:
+        for con in sh["constraints"]:
+            if len(con["values"]) == 1 and con["fig"] != (None, None):
+                out[(sh["label"], con["inv"], con["pred"], con["values"][0], card_norm(con["card"]))] = \
+                    (con["fig"][1], con["fig"][0])
+            for com in con["comments"]:
+                if "raw" in com or com["obj"] is None:
+                    continue
+                out[(sh["label"], con["inv"], con["pred"], com["obj"], card_norm(com["card"]))] = \
+                    (com["fig"][1], com["fig"][0])
+    return out
+
+
+def keys_by_label(doc, tau):
+    return {sh["label"]: set(pipe.keys_of_shape(sh, tau)) for sh in doc["shapes"]}
+
+
+def structure_of(doc):
+    """{label: set of (inv, pred, values, card)}"""
+    return {sh["label"]: {(c["inv"], c["pred"], tuple(c["values"]), c["card"]) for c in sh["constraints"]}
+            for sh in doc["shapes"]}
+
+
+# --------------------------------------------------------------------------
+# C12: raising the threshold only removes constraints
+# --------------------------------------------------------------------------
+
+def check_monotone(ts, cfgs, docs):
+    """docs[i] = canonical output at cfgs[i]['thr']; thresholds ascending"""
+    fails = []
+    n = 0
+    tau = cfgs[0]["tau"]
+    thr = [Fraction(*c["thr"]) for c in cfgs]
+    keys = [keys_by_label(d, tau) for d in docs]
+    facts = [facts_of(d) for d in docs]
+    for i in range(len(docs)):
+        for j in range(i + 1, len(docs)):
+            if thr[i] > thr[j]:
+                continue
+            n += 1
+            for label, ks in keys[j].items():
+                if label not in keys[i]:
+                    fails.append((None, "shape %s present at threshold %s, absent at %s" % (label, thr[j], thr[i])))
+                    continue
+                for k in ks - keys[i][label]:
+                    fails.append((None, "key %r of %s present at threshold %s, absent at %s" % (k, label, thr[j], thr[i])))
+            for f, v in facts[j].items():
+                if f in facts[i] and facts[i][f] != v:
+                    if f[3] == "NONLITERAL":
+                        continue       # its figure is a sum over the surviving candidates (C01 findings)
+                    fails.append((None, "figure of %r is %r at threshold %s and %r at %s" % (f, v, thr[j], facts[i][f], thr[i])))
+    # the extremes
+    inst, n_of, exp, nl = expected_keys(ts, cfgs[0])
+    for i, t in enumerate(thr):
+        if t == 0:
+            for sh in docs[i]["shapes"]:
+                cl = class_of_label(sh["label"], inst, cfgs[i]["shapes_ns"])
+                if len(cl) == 1:
+                    miss = set(exp[cl[0]]) - keys[i][sh["label"]]
+                    for k in miss:
+                        fails.append((None, "threshold 0 omits observed key %r of %s" % (k, cl[0])))
+        if t == 1:
+            for sh in docs[i]["shapes"]:
+                cl = class_of_label(sh["label"], inst, cfgs[i]["shapes_ns"])
+                if len(cl) == 1:
+                    for k in keys[i][sh["label"]]:
+                        if exp[cl[0]].get(k, 0) != 1:
+                            fails.append((None, "threshold 1 keeps key %r of %s held by %s of the instances" % (
+                                k, cl[0], exp[cl[0]].get(k, 0))))
+    return fails, n
+
+
+# --------------------------------------------------------------------------
+# C13: each option changes only what it documents
+# --------------------------------------------------------------------------
+
+def relabel(label, from_ns, to_ns):
+    return to_ns + label[len(from_ns):] if label.startswith(from_ns) else label
+
+
+def check_option(option, cfg_a, cfg_b, doc_a, doc_b, ts):
+    """cfg_b = cfg_a with `option` changed; returns failures"""
+    fails = []
+    sa, sb = structure_of(doc_a), structure_of(doc_b)
+    if option in ("disable_comments", "decimals", "mode", "ns", "shapes_ns"):
+        if option == "shapes_ns":
+            sa = {relabel(k, cfg_a["shapes_ns"], cfg_b["shapes_ns"]): v for k, v in sa.items()}
+        if sa != sb:
+            diff = [(k, sorted(sa.get(k, set()) ^ sb.get(k, set()))[:2]) for k in set(sa) | set(sb)
+                    if sa.get(k) != sb.get(k)]
+            fails.append((None, "presentation option %s changes shapes/constraints/cardinalities: %r" % (option, diff[:2])))
+        if option == "decimals":
+            d = cfg_b["decimals"]
+            inst, n_of, occ, cnt = spec_counts(ts, cfg_b)
+            for sh in doc_b["shapes"]:
+                cl = class_of_label(sh["label"], inst, cfg_b["shapes_ns"])
+                if len(cl) != 1 or not n_of[cl[0]]:
+                    continue
+                figs = [c["fig"] for c in sh["constraints"]] + [k["fig"] for c in sh["constraints"]
+                                                                 for k in c["comments"] if "fig" in k]
+                for rs, count in figs:
+                    if rs is None or count is None:
+                        continue
+                    exact = Fraction(100 * count, n_of[cl[0]])
+                    if d > 0 and ("." not in rs or len(rs.split(".")[1]) != d):
+                        fails.append((None, "decimals=%d prints %s" % (d, rs)))
+                    if d >= 0 and abs(Fraction(rs) - exact) > Fraction(1, 2 * 10 ** d):
+                        rc = "rc_decimals0_truncates" if d == 0 else None
+                        fails.append((rc, "decimals=%d prints %s for %s (not the rounded value)" % (d, rs, exact)))
+        return fails
+    if set(sa) != set(sb):
+        fails.append((None, "option %s changes the set of shapes" % option))
+        return fails
+    fa, fb = facts_of(doc_a), facts_of(doc_b)
+    for label in sa:
+        ka = {(i, p, v): c for i, p, v, c in sa[label]}
+        kb = {(i, p, v): c for i, p, v, c in sb[label]}
+        if option == "disable_or_statements":
+            # a = disabled (default), b = enabled: single-valued constraints stay; a disjunction replaces a
+            # non-literal constraint of the same (direction, predicate, cardinality)
+            single_b = {k: c for k, c in kb.items() if len(k[2]) == 1}
+            multi_b = {k: c for k, c in kb.items() if len(k[2]) > 1}
+            for k, c in single_b.items():
+                if ka.get(k) != c:
+                    fails.append((None, "enabling OR changes the single constraint %r %s -> %r" % (k, ka.get(k), c)))
+            for k, c in multi_b.items():
+                cand = [ka2 for ka2 in ka if ka2[0] == k[0] and ka2[1] == k[1] and len(ka2[2]) == 1
+                        and (ka2[2][0] in k[2] or ka2[2][0] in ("IRI", "BNode", "NONLITERAL"))]
+                if not cand:
+                    fails.append((None, "disjunction %r has no counterpart without OR" % (k,)))
+                elif ka[cand[0]] != c:
+                    fails.append((None, "disjunction %r changes the cardinality %s -> %s" % (k, ka[cand[0]], c)))
+            for k in ka:
+                if k not in single_b and not any(m[0] == k[0] and m[1] == k[1] for m in multi_b):
+                    fails.append((None, "enabling OR loses constraint %r" % (k,)))
+            continue
+        if set(ka) != set(kb):
+            fails.append((None, "option %s changes the constraints of %s: %r" % (option, label, sorted(set(ka) ^ set(kb))[:2])))
+            continue
+        for k in ka:
+            ca, cb = ka[k], kb[k]
+            if option == "all_instances_are_compliant_mode":
+                # a = on, b = off: only constraints relaxed to ?/* may differ, and the off-mode never has ?/*
+                if cb in ("?", "*"):
+                    fails.append((None, "mode off yields cardinality %s on %r" % (cb, k)))
+                if ca != cb and ca not in ("?", "*"):
+                    fails.append((None, "all-compliant mode changes %r: %s vs %s" % (k, ca, cb)))
+            elif option == "allow_opt_cardinality":
+                # a = True, b = False: only ? -> *
+                if ca != cb and not (ca == "?" and cb == "*"):
+                    fails.append((None, "allow_opt_cardinality=False changes %r: %s -> %s" % (k, ca, cb)))
+                if cb == "?":
+                    fails.append((None, "allow_opt_cardinality=False still prints ? on %r" % (k,)))
+            elif option == "disable_exact_cardinality":
+                # a = False, b = True: only {k>1} -> +
+                big = ca.startswith("{") and int(ca.strip("{}")) > 1
+                if ca != cb and not (big and cb == "+"):
+                    fails.append((None, "disable_exact_cardinality changes %r: %s -> %s" % (k, ca, cb)))
+                if cb.startswith("{") and int(cb.strip("{}")) > 1:
+                    fails.append((None, "disable_exact_cardinality keeps %s on %r" % (cb, k)))
+    return fails
+
+
+# --------------------------------------------------------------------------
+# C09: statement order and blank-node labels
+# --------------------------------------------------------------------------
+
+def rename_facts(facts, sigma_label):
+    return facts
+
+
+def evidence_of(doc, tau):
+    return {"labels": {sh["label"]: sh["n"] for sh in doc["shapes"]},
+            "keys": keys_by_label(doc, tau),
+            "facts": {k: v for k, v in facts_of(doc).items() if k[3] != "NONLITERAL"},
+            "chosen": structure_of(doc)}
+
+
+def tie_root_causes(ts, cfg):
+    """root causes under which the current code's result may depend on statement order"""
+    inst, n_of, occ, cnt = spec_counts(ts, cfg)
+    rcs = set()
+    by = collections.defaultdict(list)
+    for (c, d, p, k, card), n in occ.items():
+        by[(c, d, p)].append((k, card, n))
+    for (c, d, p), lst in by.items():
+        if p == cfg["tau"]:
+            continue
+        refs = [(k, n) for k, card, n in lst if k.startswith("@") and card == "+"]
+        if len(refs) >= 2:
+            ns = sorted(n for _, n in refs)
+            if any(a == b for a, b in zip(ns, ns[1:])):
+                rcs.add("rc_reference_tie")
+        kinds = collections.defaultdict(list)
+        for k, card, n in lst:
+            if card != "+":
+                kinds[k].append(n)
+        for k, ns in kinds.items():
+            ns = sorted(ns)
+            if any(a == b for a, b in zip(ns, ns[1:])):
+                rcs.add("rc_cardinality_tie")
+        # the node-kind choice (IRI vs BNode vs reference) on equal counts
+        plus = sorted(n for k, card, n in lst if card == "+" and (k in ("IRI", "BNode") or k.startswith("@")))
+        if any(a == b for a, b in zip(plus, plus[1:])):
+            rcs.add("rc_kind_tie")
+    return rcs
